@@ -9,7 +9,7 @@
    timer (context.WithTimeout, Client.Timeout, ResponseHeaderTimeout) the timer may fire before
    the peer reached its stall point: the allowed set is the union over all earlier positions. *)
 From Coq Require Import List Bool Arith.
-From ReqV Require Export Lib.Bytes Model.Lifecycle.
+From ReqV Require Export Lib.Bytes Model.Lifecycle Model.RetryLife Model.LifecycleH2.
 Import ListNotations.
 
 Inductive ocall := OResp | OErr (e : err).
@@ -24,8 +24,20 @@ Record obs1 := mkObs1 {
   o_req_body_closed : bool  (* ... and it was closed *)
 }.
 
+Record obs2 := mkObs2 {
+  o2_call : ocall;
+  o2_body : obody;
+  o2_rst : option rstk;       (* RST_STREAM received by the peer for the request's stream *)
+  o2_req_body : bool;
+  o2_req_body_closed : bool
+}.
+
 Inductive c08_case :=
-| H1Case (c : cfg1) (auto union : bool) (pre racy inj post : list label) (o : obs1).
+| H1Case (c : cfg1) (auto union : bool) (pre racy inj post : list label) (o : obs1)
+| H2Case (has_body union : bool) (pre racy inj : list label2) (o : obs2)
+(* retry layer: labels up to and including the injection; observed: the call's error and the
+   number of attempts that reached the peer *)
+| RetryCase (max : option nat) (ls : list rlabel) (o_err : ocall) (o_seen : nat).
 
 Definition cause_eqb (a b : cause) : bool :=
   match a, b with
@@ -158,11 +170,85 @@ Definition allowed (c : cfg1) (union : bool) (pre racy inj post : list label) : 
   | l => Some l
   end.
 
+(* ---- HTTP/2: the same script interpreter over step2 ---- *)
+Inductive item2 := Must2 (l : label2) | May2 (l : label2) | Q2.
+
+Fixpoint exec2 (hb : bool) (ss : list h2) (is : list item2) : option (list h2) :=
+  match is with
+  | [] => Some ss
+  | Must2 l :: r =>
+      match flat_map (fun s => match step2 hb s l with Some s' => [s'] | None => [] end) ss with
+      | [] => None
+      | ss' => exec2 hb ss' r
+      end
+  | May2 l :: r => exec2 hb (map (fun s => match step2 hb s l with Some s' => s' | None => s end) ss) r
+  | Q2 :: r => match collect (map (quiesce2 fuel1 hb) ss) with Some ss' => exec2 hb ss' r | None => None end
+  end.
+
+Definition seqQ2 (ls : list label2) : list item2 := flat_map (fun l => [Must2 l; Q2]) ls.
+Definition mayQ2 (ls : list label2) : list item2 := flat_map (fun l => [May2 l; Q2]) ls.
+
+Definition scripts2 (union : bool) (pre racy inj : list label2) : list (list item2) :=
+  match racy with
+  | [] =>
+      (if union then map (fun p => Q2 :: seqQ2 p ++ seqQ2 inj) (prefixes pre)
+       else [Q2 :: seqQ2 pre ++ seqQ2 inj]) ++
+      (match pre, union with [], _ | _, true => [seqQ2 inj] | _, _ => [] end)
+  | _ =>
+      let body := flat_map (fun p =>
+        let done := firstn p racy in
+        let rest := skipn p racy in
+        (seqQ2 pre ++ seqQ2 done ++ seqQ2 inj ++ mayQ2 rest) ::
+        (seqQ2 pre ++ seqQ2 done ++ map Must2 inj ++ mayQ2 rest) ::
+        match rest with
+        | l :: rest' => [seqQ2 pre ++ seqQ2 done ++ [Must2 l] ++ map Must2 inj ++ [Q2] ++ mayQ2 rest']
+        | [] => []
+        end) (seq 0 (S (length racy))) in
+      map (cons Q2) body ++ match pre with [] => body | _ => [] end
+  end.
+
+Definition rstk_eqb (a b : option rstk) : bool :=
+  match a, b with
+  | None, None | Some RstCancel, Some RstCancel | Some RstNoError, Some RstNoError => true
+  | _, _ => false
+  end.
+
+Definition matches2 (o : obs2) (s : h2) : bool :=
+  match c2 s with
+  | CRet r =>
+      ocall_eqb (match r with CResp _ => OResp | CErr e => OErr e end) (o2_call o) &&
+      match pipe2 s with
+      | BNone => obody_eqb ONone (o2_body o)
+      | BEOF => obody_eqb OEof (o2_body o)
+      | BErr e => obody_eqb (OBErr e) (o2_body o)
+      | _ => false
+      end &&
+      rstk_eqb (rst2 s) (o2_rst o) &&
+      (negb (o2_req_body o) || Bool.eqb (bclosed2 s) (o2_req_body_closed o)) &&
+      match d2 s with DExit => true | _ => false end
+  | _ => false
+  end.
+
 Definition c08_check (k : c08_case) : bool :=
   match k with
   | H1Case c auto union pre racy inj post o =>
       match allowed c union pre racy inj post with
       | Some fs => existsb (matches auto o) fs
+      | None => false
+      end
+  | H2Case hb union pre racy inj o =>
+      match flat_map (fun sc => some_or_nil (exec2 hb [init2] sc)) (scripts2 union pre racy inj) with
+      | [] => false
+      | fs => existsb (matches2 o) fs
+      end
+  | RetryCase max ls oe seen =>
+      match rrun true max rinit ls with
+      | Some s =>
+          existsb (fun f => match r_phase f with
+                            | PRet (Some e) => ocall_eqb (OErr e) oe && Nat.eqb (r_net f) seen
+                            | PRet None => ocall_eqb OResp oe && Nat.eqb (r_net f) seen
+                            | _ => false
+                            end) (rfinish 6 true max s)
       | None => false
       end
   end.
